@@ -130,9 +130,13 @@ def gen_invocation(rng, idx):
         if rng.random() < 0.25:
             pre.append('let cap = 77u16;'); fmt += ' {cap}'; text += ' 77'
         fields.append(', '.join(['"%s"' % fmt] + args)); descr.append('%s m:%s #%d' % (hx('message'), hx(text), k))
+    # the prefix combination cycles with the invocation's index (every macro arm is reached in every corpus, whatever the seed):
+    # bit 0 target:, bit 1 parent:, bit 2 name: (events written with `event!` only)
+    combo = idx % 8
     prefix = []
-    if rng.random() < 0.4: prefix.append('target: "custom::target"')
-    if rng.random() < 0.25: prefix.append('parent: None::<tracing::span::Id>' if False else 'parent: None')
+    if combo & 1: prefix.append('target: "custom::target"')
+    if combo & 2: prefix.append('parent: None')
+    want_name = bool(combo & 4)
     # a dotted name cannot come FIRST after a prefix at all ("local ambiguity", a compile error): no prefix then
     if prefix and fields and fields[0].lstrip('%?') in ('conn.port', 'conn.peer.id'):
         prefix = []
@@ -142,10 +146,10 @@ def gen_invocation(rng, idx):
         fields[0] = '%s = %s' % (fields[0].lstrip('%?'), fields[0])
     body = ', '.join(fields)
     if kind == 'e':
-        if rng.random() < 0.4 and 'name:' not in ' '.join(prefix):
+        if not want_name and rng.random() < 0.5:
             mac = 'tracing::%s!(%s%s)' % (SHORT_EV[level], ''.join(p + ', ' for p in prefix), body)
         else:
-            if rng.random() < 0.2: prefix.insert(0, 'name: "ev.name"')
+            if want_name: prefix.insert(0, 'name: "ev.name"')
             mac = 'tracing::event!(%stracing::Level::%s%s)' % (''.join(p + ', ' for p in prefix), LEVELS[level], (', ' + body) if body else '')
         if mac.endswith(', )'): mac = mac[:-3] + ')'
         stmt = mac + ';'
